@@ -207,6 +207,14 @@ Definition c_ext (e : cext) (w : world) : world :=
   | XSetDur ty d => match set_duration ty d w with Some w' => w' | None => w end
   end.
 
+(* ---- x/recovery RotateRecoveryAddress, gov part: the network actor record (status, vote options,
+   permissions and their index keys) moves from the old to the new address; spending-pool owner
+   accounts are NOT renamed.  (The harness rotates only to addresses that have no actor record.) *)
+Definition c_rotate (old new : Z) (w : world) : world :=
+  match get_actor old (w_actors w) with
+  | Some a => with_actors w (put_actor new a (filter (fun ka => negb (fst ka =? old)) (w_actors w)))
+  | None => w end.
+
 (* ---- the instantiated lifecycle *)
 Definition cstate := state world ccontent.
 Definition cop := op ccontent cext.
@@ -218,6 +226,6 @@ Definition c_params (f : cflags) (dec : tally -> vresult) : params world cconten
        (fun w who c => w_can w who (prop_perm c) c) w_is_active
        (fun w who c => w_can w who (vote_perm c) c) w_nvoters (w_nveto (f_dyn_veto f))
        w_quorum w_end_secs w_enact_secs
-       (fun w => n_endblocks (w_np w)) (fun w => n_enactblocks (w_np w)) (c_handler (f_dur_err f)) c_ext dec (f_quorum_panics f).
+       (fun w => n_endblocks (w_np w)) (fun w => n_enactblocks (w_np w)) (c_handler (f_dur_err f)) c_ext c_rotate dec (f_quorum_panics f).
 Definition c_step (f : cflags) (dec : tally -> vresult) : ctx -> cop -> cstate -> outcome cstate :=
   step world ccontent cext (c_params f dec).
